@@ -328,6 +328,12 @@ def register_impl(name: str, fn: Callable[..., Any]) -> None:
 CASE_TIMEOUT = int(os.environ.get("VERIF_CASE_TIMEOUT", "20"))
 
 
+def set_case_timeout(seconds: int) -> None:
+    """call before the first run_impl (the workers are forked at pool creation)"""
+    global CASE_TIMEOUT
+    CASE_TIMEOUT = seconds
+
+
 def _run_task(task: tuple) -> Any:
     fn, args = task[0], task[1:]
     signal.signal(signal.SIGALRM, _alarm)
